@@ -46,9 +46,15 @@ func toNotification(host *Host) Notification {
 }
 
 func (h *Session) sendNotification(notification Notification) {
-	if len(h.C) < cap(h.C) {
-		h.C <- notification
+	// Close() closes the channel under the session lock: never send on a closed channel
+	h.mutex.RLock()
+	defer h.mutex.RUnlock()
+	if h.closed {
 		return
 	}
-	Logger.Msg("notification channel is full").Int("len", len(h.C)).Struct(notification).Write()
+	select {
+	case h.C <- notification:
+	default:
+		Logger.Msg("notification channel is full").Int("len", len(h.C)).Struct(notification).Write()
+	}
 }
